@@ -137,6 +137,12 @@ def nonneg(e, bounds=None, depth=0):
         return False
     if all(c >= 0 for c in coeffs.values()) and const >= 0:
         return True
+    # 2^x >= 1: a positively weighted power of two may be replaced by its lower bound
+    for a, c in coeffs.items():
+        if c > 0 and getattr(a, "func", None) is not None and getattr(a.func, "__name__", "") == "pow2" and depth <= 6:
+            if nonneg(sp.expand(e - c * a + c), bounds, depth + 1):
+                return True
+            break
     if bounds is None or depth > 6:
         return False
     # use guard facts a <= b: e >= 0 follows from e - (b - a) >= 0
@@ -245,9 +251,37 @@ class Pt(Val):
         """dict: (base repr at symbolic j, len) -> summed scalar expr at j"""
         j = isym("_j")
         out = {}
-        for n, b, s in self.terms:
-            if n == 0:
-                continue
+        terms = [(sp.expand(n), b, s) for n, b, s in self.terms if n != 0]
+        # a single element that continues a longer run at its front or its end is merged into it
+        # ([x_0] ++ [x_1 .. x_{n-1}]  ==  [x_0 .. x_{n-1}]): the partition into segments is not part of the value
+        changed = True
+        while changed:
+            changed = False
+            for i1, (n1, b1, s1) in enumerate(terms):
+                if n1 != 1:
+                    continue
+                for i2, (n2, b2, s2) in enumerate(terms):
+                    if i2 == i1 or n2 == 1 and i2 < i1:
+                        continue
+                    try:
+                        if sp.expand(b2(sp.Integer(0)) - b2(sp.Integer(1))) == 0:
+                            continue  # not an indexed family (a single fixed base): nothing to extend
+                        front = sp.expand(b2(sp.Integer(-1)) - b1(sp.Integer(0))) == 0 and sp.expand(s2(sp.Integer(-1)) - s1(sp.Integer(0))) == 0
+                        back = not front and sp.expand(b2(n2) - b1(sp.Integer(0))) == 0 and sp.expand(s2(n2) - s1(sp.Integer(0))) == 0
+                    except Exception:
+                        front = back = False
+                    if front:
+                        merged = (sp.expand(n2 + 1), (lambda t, b2=b2: b2(t - 1)), (lambda t, s2=s2: s2(t - 1)))
+                    elif back:
+                        merged = (sp.expand(n2 + 1), b2, s2)
+                    else:
+                        continue
+                    terms = [t_ for k_, t_ in enumerate(terms) if k_ not in (i1, i2)] + [merged]
+                    changed = True
+                    break
+                if changed:
+                    break
+        for n, b, s in terms:
             key = (sp.srepr(b(j)), sp.srepr(sp.expand(n)))
             out[key] = sp.expand(out.get(key, 0) + s(j))
         return {k: v for k, v in out.items() if v != 0}
@@ -448,7 +482,9 @@ class Vec(Val):
         if len(segs) == 1:
             # single segment: element function is total; in-range-ness is a PANIC concern
             return segs[0].f(i)
-        raise Unanalysable(f"index {i} cannot be located in vector with breakpoints {self.breakpoints()}")
+        u_ = Unanalysable(f"index {i} cannot be located in vector with breakpoints {self.breakpoints()}")
+        u_.vec = self
+        raise u_
 
     def set_index(self, i, v, bounds=None):
         """functional update of one position (used for constant positions)"""
